@@ -442,3 +442,65 @@ Proof.
   apply andb_true_iff in H. destruct H as [_ H]. rewrite no_ctl_true in H.
   apply andb_true_iff in H. destruct H as [H _]. apply negb_true_iff in H. exact H.
 Qed.
+
+(** * User text stays text: reading the escapes back
+
+    [read_text] is how a roff processor reads the escapes the crate emits inside text: backslash
+    followed by [*(Aq] is the apostrophe string, backslash followed by any other character is that
+    character (backslash-backslash, backslash-dash).  Reading back the escaped text gives the author's
+    string, for every string: no backslash of the author survives as the start of an escape. *)
+Fixpoint read_text (s : bytes) : bytes :=
+  match s with
+  | [] => []
+  | c :: t =>
+      if c =? 92 then
+        match t with
+        | 42 :: 40 :: 65 :: 113 :: t' => 39 :: read_text t'
+        | d :: t' => d :: read_text t'
+        | [] => [c]
+        end
+      else c :: read_text t
+  end.
+
+Lemma replace1_app a r x y : replace1 a r (x ++ y) = replace1 a r x ++ replace1 a r y.
+Proof.
+  induction x as [|c x IH]; [reflexivity|]. cbn [app replace1]. rewrite IH.
+  destruct (c =? a); [rewrite app_assoc|]; reflexivity.
+Qed.
+
+Lemma escape_rules_eq :
+  inline_rules = [([92], [92; 92]); ([45], [92; 45])] /\ apostrophe_rules = [([39], [92; 42; 40; 65; 113])].
+Proof. split; reflexivity. Qed.
+
+Definition esc_ia (s : bytes) : bytes := escape_apostrophes (escape_inline s).
+
+Lemma esc_ia_unfold s :
+  esc_ia s = replace1 39 [92; 42; 40; 65; 113] (replace1 45 [92; 45] (replace1 92 [92; 92] s)).
+Proof. reflexivity. Qed.
+
+Lemma esc_ia_cons c t :
+  esc_ia (c :: t) =
+  (if c =? 92 then [92; 92] else if c =? 45 then [92; 45] else if c =? 39 then [92; 42; 40; 65; 113] else [c])
+  ++ esc_ia t.
+Proof.
+  rewrite !esc_ia_unfold. cbn [replace1].
+  destruct (c =? 92) eqn:E92.
+  - rewrite !replace1_app. reflexivity.
+  - cbn [replace1]. destruct (c =? 45) eqn:E45.
+    + rewrite !replace1_app. reflexivity.
+    + cbn [replace1]. destruct (c =? 39) eqn:E39; reflexivity.
+Qed.
+
+Theorem escape_read_back s : read_text (escape_apostrophes (escape_inline s)) = s.
+Proof.
+  change (read_text (esc_ia s) = s).
+  induction s as [|c t IH]; [reflexivity|].
+  rewrite esc_ia_cons.
+  destruct (c =? 92) eqn:E92; [apply N.eqb_eq in E92; subst c; cbn [app read_text]|].
+  - change (92 =? 92) with true. cbv iota. rewrite IH. reflexivity.
+  - destruct (c =? 45) eqn:E45; [apply N.eqb_eq in E45; subst c; cbn [app read_text]|].
+    + change (92 =? 92) with true. cbv iota. rewrite IH. reflexivity.
+    + destruct (c =? 39) eqn:E39; [apply N.eqb_eq in E39; subst c; cbn [app read_text]|].
+      * change (92 =? 92) with true. cbv iota. rewrite IH. reflexivity.
+      * cbn [app read_text]. rewrite E92, IH. reflexivity.
+Qed.
